@@ -1,5 +1,5 @@
 (** * C08 — a simulation step applies exactly the queued instructions, once each, as a batch *)
-From Bourse Require Import Model.Types Model.Book Model.Obs Model.Rng Model.Env Proofs.EnvProps.
+From Bourse Require Import Model.Types Model.Book Model.Obs Model.Rng Model.Env Proofs.EnvProps Proofs.AssetProjection.
 From Coq Require Import Permutation.
 
 (** One step: the processed list [q] is the shuffle of the queue — a permutation
@@ -41,5 +41,30 @@ Example c08_nonvacuous :
   = Ok ([(110, 3, 1%nat)], 0%nat, [[3]]).
 Proof. vm_compute. reflexivity. Qed.
 
+(** "The market after the step is exactly what a plain order book produces when those instructions
+    are replayed on it in that order at those times": for every asset, the book after the step is the
+    result of [Book.run] - the plain order book's own history function - on the counter reset
+    followed by, for the i-th processed instruction, [set_time (start + i)] and (when it is addressed
+    to this asset) [process_event], with the clock then moved to [start + step_size]. *)
+Theorem c08_step_is_replay_on_plain_books : forall L e g e' g',
+  Forall (fun b => bounded b = true) (en_market e) ->
+  menv_step L e g = Ok (e', g') ->
+  exists start q g1, market_time (en_market e) = Ok start /\ shuffle (en_queue e) g = Some (q, g1) /\
+    forall a b, nth_error (en_market e) a = Some b ->
+      exists b1, run b (OResetTvol :: asset_ops a start 0 q) = Ok b1 /\
+                 nth_error (en_market e') a = Some (set_time b1 (start + en_step e)).
+Proof. exact step_projects_to_runs. Qed.
+
+(** the hypothesis above holds in every reachable environment: a new market is bounded and every
+    operation keeps it so (each operation that can move a u32 counter goes through [Book.step]) *)
+Theorem c08_bounded_every_reachable_environment : forall L e g o e' g' x,
+  MBounded (en_market e) -> menv_apply L e g o = Ok (e', g', x) -> MBounded (en_market e').
+Proof. exact menv_apply_bounded. Qed.
+
+Theorem c08_new_market_bounded : forall t0 ticks tr m, market_new t0 ticks tr = Ok m -> MBounded m.
+Proof. exact market_new_bounded. Qed.
+
+Print Assumptions c08_step_is_replay_on_plain_books.
+Print Assumptions c08_bounded_every_reachable_environment.
 Print Assumptions c08_step_spec.
 Print Assumptions c08_ith_at_start_plus_i.
